@@ -300,4 +300,112 @@ example : (respond witnessFile { range := some [98, 121, 116, 101, 115, 61, 49, 
 example : (respond witnessFile { range := some [98, 121, 116, 101, 115, 61, 53, 45] }).status = 416 := by decide
 example : (respond witnessFile { inm := some [42] }).status = 304 := by decide
 
+/-! ### the 304 decision -/
+
+/-- 304 is answered exactly when `should_return_304` says so (no other path of `get` produces it). -/
+theorem status_304_iff (f : File) (req : Req) :
+    (respond f req).status = 304 ↔ shouldReturn304 f.etag req.inm (imsClass f.mtime req.ims) = true := by
+  unfold respond
+  simp only []
+  split
+  · rename_i h; simp [h]
+  · rename_i h
+    constructor
+    · intro hst
+      exfalso
+      revert hst
+      split
+      · simp
+      · rename_i part _ _ _
+        split
+        · cases part <;> simp
+        · split <;> cases part <;> simp
+    · intro h'; exact absurd h' h
+
+theorem beq_notBefore (c : Ims) : (c == Ims.notBefore) = true ↔ c = .notBefore := by
+  cases c <;> decide
+
+/-- **ims_304_iff_instant.**  Without an If-None-Match value, the response is 304 exactly when an
+If-Modified-Since header is present, `parsedate_to_datetime` accepts it, and the INSTANT it denotes (wall-clock
+fields minus the zone offset, see `parseInstant_eq`) is not before the file's mtime. -/
+theorem ims_304_iff_instant (f : File) (req : Req) (hinm : req.inm = none ∨ req.inm = some []) :
+    (respond f req).status = 304 ↔
+      ∃ v t, req.ims = some v ∧ Date.parseInstant v = some t ∧ f.mtime ≤ t := by
+  rw [status_304_iff]
+  have hs : shouldReturn304 f.etag req.inm (imsClass f.mtime req.ims) = true
+      ↔ imsClass f.mtime req.ims = .notBefore := by
+    rcases hinm with h | h <;> rw [h] <;> simp [shouldReturn304, beq_notBefore]
+  rw [hs]
+  cases hv : req.ims with
+  | none =>
+    constructor
+    · intro h; cases h
+    · rintro ⟨_, _, h, _⟩; cases h
+  | some v =>
+    simp only [imsClass]
+    cases ht : Date.parseInstant v with
+    | none =>
+      constructor
+      · intro h; cases h
+      · rintro ⟨v', t', hv', ht', _⟩
+        cases hv'; rw [ht] at ht'; cases ht'
+    | some t =>
+      by_cases hle : t ≥ f.mtime
+      · simp only [hle, if_true]
+        exact ⟨fun _ => ⟨v, t, rfl, ht, hle⟩, fun _ => by first | rfl | trivial⟩
+      · simp only [hle, if_false]
+        constructor
+        · intro h; cases h
+        · rintro ⟨v', t', hv', ht', hle'⟩
+          cases hv'; rw [ht] at ht'; cases ht'; exact absurd hle' hle
+
+/-- what `parseInstant` returns: the fields `_parsedate_tz` extracts, accepted by the constructors, as
+wall-clock seconds minus the zone offset (a date without a usable zone is read as UTC). -/
+theorem parseInstant_eq (v : Str) (t : Int) (h : Date.parseInstant v = some t) :
+    ∃ fl, Date.parseDateTz v = some fl ∧ Date.fieldsOk fl = true
+      ∧ t = Date.wallSeconds fl - (match fl.tz with | some o => o | none => 0) := by
+  unfold Date.parseInstant at h
+  split at h
+  · rename_i fl hfl
+    split at h
+    · rename_i hok
+      injection h with h
+      refine ⟨fl, hfl, hok, ?_⟩
+      rw [← h]
+      unfold Date.instantOf
+      cases fl.tz <;> rfl
+    · cases h
+  · cases h
+
+/-- a non-empty If-None-Match decides alone: If-Modified-Since is not consulted -/
+theorem inm_precedence (f : File) (req : Req) (v : Str) (hv : req.inm = some v) (hne : v ≠ []) :
+    (respond f req).status = 304 ↔ checkEtag f.etag v = true := by
+  rw [status_304_iff, hv]
+  simp [shouldReturn304, hne]
+
+/-- no conditional header, no 304 -/
+theorem unconditional_not_304 (f : File) (req : Req) (h1 : req.inm = none) (h2 : req.ims = none) :
+    (respond f req).status ≠ 304 := by
+  intro h
+  obtain ⟨v, _, hv, _⟩ := (ims_304_iff_instant f req (Or.inl h1)).mp h
+  rw [h2] at hv; cases hv
+
+/-- the witness of the seeded change C27-3: file modified 2022-06-01 12:00:00 UTC -/
+def imsFile : File := { content := [1, 2, 3], etag := [34, 34], lastModified := [], ctype := [], mtime := 1654084800 }
+def imsPlus2 : Str := Date.lit "Wed, 01 Jun 2022 13:00:00 +0200"    -- 11:00:00 UTC: the client's copy is stale
+def imsGmt : Str := Date.lit "Wed, 01 Jun 2022 12:00:00 GMT"
+
+set_option maxRecDepth 8000 in
+example : Date.parseInstant imsPlus2 = some 1654081200 := by decide
+set_option maxRecDepth 8000 in
+example : (respond imsFile { ims := some imsPlus2 }).status = 200 := by decide
+set_option maxRecDepth 8000 in
+example : (respond imsFile { ims := some imsGmt }).status = 304 := by decide
+set_option maxRecDepth 8000 in
+example : (respond imsFile { ims := some (Date.lit "Sunday, 06-Nov-94 08:49:37 GMT") }).status = 200 := by decide
+set_option maxRecDepth 8000 in
+example : (respond imsFile { ims := some (Date.lit "Wed Jun  1 12:00:00 2022") }).status = 304 := by decide
+set_option maxRecDepth 8000 in
+example : (respond imsFile { ims := some (Date.lit "1 Jun 22 07:00 EST") }).status = 304 := by decide
+
 end TornadoModel.C27
